@@ -271,6 +271,10 @@ def rigid_rules(ctx):
 
 
 def run(ctx):
+    from .c07 import embedding_dimension_rule as _embedding_dimension_rule
+
+    # 'members in any embedding': the embedding dimension read from the coordinates (a frame lying in the (x, z) plane is 3-D)
+    ctx.attempt(_embedding_dimension_rule, ctx, "R10.11")
     ctx.attempt(stored_frame_rule, ctx)
     ctx.attempt(fibre_derivative_rule, ctx)
     from . import c09 as _c09
@@ -281,6 +285,9 @@ def run(ctx):
 
     # rotating the material axes rotates the law, whatever the notation the material was given in
     ctx.attempt(_c11.notation_rotation_rule, ctx)
+    # 'axes rotated by Q yield the Q-rotated tensor': stiffness AND compliance, by the same rotation
+    ctx.attempt(_c11.reduction_rule, ctx, "R10.12")
+    ctx.attempt(_c11.rotation_direction_rule, ctx, "R10.13")
     from . import c08 as _c08
     from ..elems import ElemLib as _EL
 
